@@ -93,3 +93,14 @@ func value(a arrow.Array, i int) (interface{}, error) {
 	}
 	return nil, fmt.Errorf("unsupported arrow type %s", a.DataType())
 }
+
+// ReadSafe is Read for bytes that may not be a Parquet file at all (a corrupted object): the
+// arrow reader can panic on such input; any panic is turned into an error.
+func ReadSafe(data []byte) (tbl *Table, err error) {
+	defer func() {
+		if r := recover(); r != nil {
+			tbl, err = nil, fmt.Errorf("parquetread: reader panicked on the object: %v", r)
+		}
+	}()
+	return Read(data)
+}
